@@ -125,7 +125,22 @@ pub fn gen_decode_history(seed: u64, name: &str, idx: u64) -> DecodeHistory {
     } else {
         1 + g.below((cols - 1).min(8) as u64) as usize
     };
-    let h = random_decoder_matrix(&mut g, rows, cols);
+    let mut h = random_decoder_matrix(&mut g, rows, cols);
+    if g.chance(1, 6) {
+        // check degrees that vary a lot: light checks first, then a few that involve most bits
+        // (scratch space sized by the largest degree seen so far: seeded change C10-r6-3)
+        let cols = 10 + g.below(8) as usize;
+        let rows = 3 + g.below(6) as usize;
+        h = BitMat::zeros(rows, cols);
+        let heavy = 1 + g.below(2) as usize;
+        for i in 0..rows {
+            let deg = if i + heavy >= rows { 8 + g.below((cols - 8) as u64 + 1) as usize } else { 2 + g.below(3) as usize };
+            while h.row_weight(i) < deg {
+                let j = g.below(cols as u64) as usize;
+                h.a[i][j] = 1;
+            }
+        }
+    }
     let ncalls = 2 + g.below(19) as usize;
     let mut calls: Vec<DecodeCall> = Vec::new();
     // now and then a streak: many calls in a row that are neither codewords nor quick to
@@ -144,6 +159,24 @@ pub fn gen_decode_history(seed: u64, name: &str, idx: u64) -> DecodeHistory {
             let c = random_codeword(&mut g, &h);
             let a = *g.pick(&[1.3863, 4.0, 1e30]);
             calls.push(DecodeCall { llrs: (0..h.c).map(|i| sign(c[i]) * a).collect(), limit: *g.pick(&[0usize, 1, 5]), family: "clean-codeword-after-streak" });
+        }
+    }
+    // now and then: long fruitless runs on saturated inputs first (|LLR| = 1e30, random signs, up
+    // to 100 iterations: messages overflow in f32), then saturated near-codewords (an arithmetic
+    // that changes its behaviour for good once it has seen an overflow: seeded change C10-r6-1)
+    if g.chance(1, 8) {
+        let sign = |b: u8| if b == 1 { -1.0 } else { 1.0 };
+        for _ in 0..1 + g.below(3) {
+            calls.push(DecodeCall { llrs: (0..h.c).map(|_| if g.chance(1, 2) { 1e30 } else { -1e30 }).collect(), limit: *g.pick(&[50usize, 100, 100]), family: "saturated-random-long" });
+        }
+        for _ in 0..2 + g.below(3) {
+            let c = random_codeword(&mut g, &h);
+            let mut v: Vec<f64> = (0..h.c).map(|i| sign(c[i]) * 1e30).collect();
+            for _ in 0..1 + g.below(2) {
+                let p = g.below(h.c as u64) as usize;
+                v[p] = -v[p];
+            }
+            calls.push(DecodeCall { llrs: v, limit: *g.pick(&[5usize, 20, 100]), family: "saturated-codeword-few-flips" });
         }
     }
     for _ in 0..ncalls {
@@ -344,6 +377,10 @@ pub fn gen_mat_history(seed: u64, idx: u64) -> (usize, usize, Vec<MatOp>) {
         0 => (1, 40),
         1 => (40, 1),
         2 => (1, 1),
+        // beyond 64 and 128 lines (a per-line bitmap or signature of one machine word folds
+        // indices that far apart together: seeded change C17-r6-1)
+        3 => (65 + g.below(70) as usize, 1 + g.below(3) as usize),
+        4 => (1 + g.below(3) as usize, 65 + g.below(70) as usize),
         _ => (1 + g.below(9) as usize, 1 + g.below(9) as usize),
     };
     let nops = 1 + g.below(60) as usize;
